@@ -109,6 +109,26 @@ DESC = {
     "C18e": "remote $ref (json-schema.org) in the JSON configuration schema (resolved over the network for deprecated JSON configs with headers)",
     "C19e": "Summary link rows keyed by the UTC year of the event (link points at another year's block under non-UTC offsets)",
     "C20e": "jp transfer row decided by the yen value of the fee instead of the fee (zero-price or tiny fee: row dropped)",
+    "C01f": "method and lot candidates of the 'current year' cached and refreshed only when the event year increases (local years not monotone under mixed offsets)",
+    "C02f": "parser: both transactions derived from a crypto-fee IN row re-serialise the timestamp without the sub-second part (a disposal earlier in the same second sees the lot)",
+    "C03f": "EntrySetIterator compares UTC instants with window bounds (taxable events near the boundary in a non-UTC offset drop out of the window)",
+    "C04f": "RP2Decimal gains a tolerance-quantised __hash__ + pro-rating formula behind lru_cache (dust fiat totals < 5e-14 collide; two cooperating edits)",
+    "C05f": "is_long_term_capital_gains: 'no lot' guard replaced by transaction_type.is_earn_type() (STAKING-typed OUT disposals always SHORT)",
+    "C06f": "yearly summary built per year-run with takewhile / groupby (a second run of the same local year is dropped)",
+    "C07f": "balance replay takes out-transactions from the from-date-filtered set (debits before -f lost)",
+    "C08f": "parser: artificial fee disposal loses the sub-second part (fee debited before the credit of its own row: false overdraft)",
+    "C09f": "taxable events added in sorted(timestamp, internal_id) order, ids compared as strings (rows 9/10 swap when later rows shift them)",
+    "C10f": "window upper bound precomputed as 23:59:59 without the sub-second tail (last second of the to-date hidden)",
+    "C11f": "parse_ods builds the three transaction sets with the configuration's from/to dates (out-of-window rows never reach the computation)",
+    "C12f": "repeated-table detection remembers the keyword text instead of the table kind ('OUT' then 'out' accepted)",
+    "C13f": "EntrySetIterator checks the from-date only on the leading entries (later entry with an earlier local day let through)",
+    "C14f": "date columns formatted through an lru_cache keyed by aware datetimes (equal instants with different offsets share one text)",
+    "C15f": "sold % lot filter compares UTC instants with the window (lot bought late on the to-date in a negative offset dropped)",
+    "C16f": "balance ledger merged with heapq.merge(IN, OUT, INTRA) (equal instants: disposal before the transfer that funds it)",
+    "C17f": "Summary link-row dictionary keyed by year alone (entries of an earlier asset leak into the next one under -f)",
+    "C18f": "open_ods copies the input into a SpooledTemporaryFile (inputs above 1 MiB spill to an unnamed file in /tmp)",
+    "C19f": "In-Out row map keyed by asset name glued to the row id, never cleared ('ETH'+'23' = 'ETH2'+'3')",
+    "C20f": "jp out-transaction fee = crypto_fee * spot only (a fee charged in fiat shows as 0)",
 }
 
 
